@@ -231,6 +231,41 @@ def stringJoin (items : List Str) (separator : Str) : Str := pyJoin separator it
 mapping, context free; the table `up` is CPython's (parameter) -/
 def upperCase (up : Nat → Str) (arg : Str) : Str := arg.flatMap up
 
+/-- CPython `unicodeobject.c: handle_capital_sigma(kind, data, length, i)`:
+```
+for (j = i - 1; j >= 0; j--) { c = READ(j); if (!_PyUnicode_IsCaseIgnorable(c)) break; }
+final_sigma = j >= 0 && _PyUnicode_IsCased(c);
+if (final_sigma) {
+    for (j = i + 1; j < length; j++) { c = READ(j); if (!_PyUnicode_IsCaseIgnorable(c)) break; }
+    final_sigma = j == length || !_PyUnicode_IsCased(c);
+}
+return final_sigma ? 0x3C2 : 0x3C3;
+```
+`revBefore` = `data[i-1], data[i-2], …, data[0]`, `after` = `data[i+1:]`. -/
+def handleCapitalSigma (cased ign : Nat → Bool) (revBefore after : Str) : Nat :=
+  let finalSigma :=
+    match revBefore.find? (fun c => !ign c) with
+    | none => false
+    | some c =>
+      cased c &&
+        match after.find? (fun c => !ign c) with
+        | none => true
+        | some c' => !cased c'
+  if finalSigma then 0x3C2 else 0x3C3
+
+/-- CPython `do_lower` / `lower_ucs4`: `c == 0x3A3 ? handle_capital_sigma(…) :
+_PyUnicode_ToLowerFull(c)` for `i = 0 … length-1` -/
+def lowerAux (lo : Nat → Str) (cased ign : Nat → Bool) : Str → Str → Str
+  | _, [] => []
+  | revBefore, c :: cs =>
+    (if c = 0x3A3 then [handleCapitalSigma cased ign revBefore cs] else lo c) ++
+      lowerAux lo cased ign (c :: revBefore) cs
+
+/-- `evaluate__lower_case`: CPython `str.lower()`; the tables `lo`, `cased`, `ign` are CPython's
+(parameters) -/
+def lowerCase (lo : Nat → Str) (cased ign : Nat → Bool) (arg : Str) : Str :=
+  lowerAux lo cased ign [] arg
+
 /-! ### URI escaping: `urllib.parse.quote(string, safe)` -/
 
 /-- CPython: `str.encode('utf-8', 'strict')`, one code point (surrogates raise
